@@ -1,1 +1,50 @@
+//! MODEL of `tracing`: logging is never the subject of a property.  `#[instrument]` is the
+//! identity attribute; the event/span macros expand to nothing (their arguments are not evaluated,
+//! as with a disabled subscriber level).
 pub use tracing_attributes::instrument;
+
+#[macro_export]
+macro_rules! trace { ($($t:tt)*) => {{}}; }
+#[macro_export]
+macro_rules! debug { ($($t:tt)*) => {{}}; }
+#[macro_export]
+macro_rules! info { ($($t:tt)*) => {{}}; }
+#[macro_export]
+macro_rules! warn { ($($t:tt)*) => {{}}; }
+#[macro_export]
+macro_rules! error { ($($t:tt)*) => {{}}; }
+#[macro_export]
+macro_rules! event { ($($t:tt)*) => {{}}; }
+
+/// placeholder span (`let _g = tracing::info_span!(..).entered();` patterns)
+#[derive(Debug, Clone, Copy, Default)]
+pub struct Span;
+impl Span {
+    pub fn entered(self) -> Span { Span }
+    pub fn enter(&self) -> Span { Span }
+    pub fn in_scope<F: FnOnce() -> T, T>(&self, f: F) -> T { f() }
+    pub fn current() -> Span { Span }
+    pub fn none() -> Span { Span }
+}
+#[macro_export]
+macro_rules! span { ($($t:tt)*) => { $crate::Span }; }
+#[macro_export]
+macro_rules! trace_span { ($($t:tt)*) => { $crate::Span }; }
+#[macro_export]
+macro_rules! debug_span { ($($t:tt)*) => { $crate::Span }; }
+#[macro_export]
+macro_rules! info_span { ($($t:tt)*) => { $crate::Span }; }
+#[macro_export]
+macro_rules! warn_span { ($($t:tt)*) => { $crate::Span }; }
+#[macro_export]
+macro_rules! error_span { ($($t:tt)*) => { $crate::Span }; }
+
+#[derive(Debug, Clone, Copy, PartialEq, Eq, PartialOrd, Ord)]
+pub struct Level(u8);
+impl Level {
+    pub const TRACE: Level = Level(0);
+    pub const DEBUG: Level = Level(1);
+    pub const INFO: Level = Level(2);
+    pub const WARN: Level = Level(3);
+    pub const ERROR: Level = Level(4);
+}
